@@ -324,7 +324,11 @@ class CentrallyBin(Factory, Container):
 
     @inheritdoc(Container)
     def zero(self):
-        return CentrallyBin([c for c, v in self.bins], self.quantity, self.value, self.nanflow.zero())
+        out = CentrallyBin([c for c, v in self.bins], self.quantity, self.value, self.nanflow.zero())
+        if self.value is None:
+            # no template (container made by ed() / fromJson): take the empty bins from the existing ones
+            out.bins = [(c, v.zero()) for c, v in self.bins]
+        return out.specialize()
 
     @inheritdoc(Container)
     def __add__(self, other):
